@@ -21,13 +21,17 @@ type Entry struct {
 	// Lying header: when Declared >= 0 the entry is written with CreateRaw and this uncompressed size
 	// in both headers although the stream holds len(Data) bytes.
 	Declared int64 `json:"declared"`
-	BadCRC   bool  `json:"bad_crc,omitempty"`
+	// DeclaredHuge, when non-zero, overrides Declared with an uncompressed size that does not fit an int64 (zip64 header)
+	DeclaredHuge uint64 `json:"declared_huge,omitempty"`
+	BadCRC       bool   `json:"bad_crc,omitempty"`
 	// Nested, when non-nil, replaces Data by the bytes of the nested archive.
 	Nested []Entry `json:"nested,omitempty"`
 }
 
 // E returns a plain file entry.
-func E(name string, data []byte) Entry { return Entry{Name: name, Data: data, Size: len(data), Declared: -1} }
+func E(name string, data []byte) Entry {
+	return Entry{Name: name, Data: data, Size: len(data), Declared: -1}
+}
 
 // D returns a directory entry (name gets a trailing slash if missing).
 func D(name string) Entry {
@@ -66,7 +70,7 @@ func Build(entries []Entry) ([]byte, error) {
 			}
 			continue
 		}
-		if e.Declared < 0 && !e.BadCRC {
+		if e.Declared < 0 && !e.BadCRC && e.DeclaredHuge == 0 {
 			fw, err := w.CreateHeader(h)
 			if err != nil {
 				return nil, err
@@ -93,6 +97,9 @@ func Build(entries []Entry) ([]byte, error) {
 		h.UncompressedSize64 = uint64(len(data))
 		if e.Declared >= 0 {
 			h.UncompressedSize64 = uint64(e.Declared)
+		}
+		if e.DeclaredHuge != 0 {
+			h.UncompressedSize64 = e.DeclaredHuge
 		}
 		rw, err := w.CreateRaw(h)
 		if err != nil {
